@@ -21,7 +21,7 @@ EXTENDS Integers, Sequences, FiniteSets, TLC
 
 CONSTANT Guarded
 
-Starts == {"ok", "garbage", "noversion", "huge"}
+Starts == {"ok", "garbage", "noversion", "huge", "negnum", "zeronum", "bignum"}   \* ...num: the number in the start line (status code / version) is signed, zero, or absurd but decodes
 CLens  == {"ok", "missing", "negative", "2^31", "2^62", "nan", "larger", "smaller"}
 Vias   == {"ok", "missing", "emptyhost", "lbracket", "brackets", "hugehost", "nobranch", "badport", "many", "sctp"}
 Addrs  == {"ok", "missing", "garbage", "nogt"}
@@ -54,9 +54,13 @@ Learn == stage = "learn" /\ stage' = "tcpreg" /\ UNCHANGED <<m, state>>
 TcpReg ==
     /\ stage = "tcpreg"
     /\ IF m.kind = "req" /\ m.tr = "tcp" /\ m.via = "lbracket"
-       THEN (IF Guarded THEN stage' = "route" /\ UNCHANGED state ELSE state' = "crash" /\ stage' = "end")   \* host[1:len(host)-1] with host = "["
-       ELSE stage' = "route" /\ UNCHANGED state
+       THEN (IF Guarded THEN stage' = "classify" /\ UNCHANGED state ELSE state' = "crash" /\ stage' = "end")   \* host[1:len(host)-1] with host = "["
+       ELSE stage' = "classify" /\ UNCHANGED state
     /\ UNCHANGED m
+
+\* IsFinalResponse / status class (message.go): statusCode \div 100 looked up in a map - TOTAL for every integer the
+\* start line decodes to (negative, zero, beyond 699); the step is here so that the class is named and enumerated
+Classify == stage = "classify" /\ stage' = "route" /\ UNCHANGED <<m, state>>
 
 \* everything after: typed headers are decoded on demand, a failed decode is an error value -> drop
 Route == /\ stage = "route"
@@ -65,7 +69,7 @@ Route == /\ stage = "route"
                      ELSE (IF m.via \in {"ok", "nobranch", "hugehost"} THEN "relayed" ELSE "dropped-or-relayed")
          /\ stage' = "end"
          /\ UNCHANGED m
-Next == Decode \/ Learn \/ TcpReg \/ Route
+Next == Decode \/ Learn \/ TcpReg \/ Classify \/ Route
 Spec == Init /\ [][Next]_vars
 NeverCrash == state \notin {"crash", "balloon"}
 =============================================================================
